@@ -123,18 +123,34 @@ func c02SchemeSubject(sch sign.Scheme) *kit.Subject {
 // once), the declared sub-alphabet on the others.
 func c02Plan(r *verifmc.Run, big bool) kit.Plan {
 	p := kit.Plan{AllMsgLens: c02AllMsgLens, SmallLimit: 256, Stride: 16, MsgFlipLimit: 512}
-	if r.Thorough() {
+	primary := r.Config() == "default"
+	switch {
+	case r.Thorough() && primary:
 		p.Seeds = nil // all
 		p.MsgLens = []int{0, 1, 137, 300}
 		p.Pairs = true
 		if big {
 			p.FullFlipBases = []int{0, 5, 10, 15, 16} // (s0,m0) (s1,m1) (s2,m137) (s3,m300) (s4,m0)
 		}
-	} else {
+	case r.Thorough() && r.Config() == "purego":
+		p.Seeds = nil
+		p.MsgLens = []int{0, 137}
+		if big {
+			p.FullFlipBases = []int{0}
+		}
+	case primary:
 		p.Seeds = []int{0, 3}
 		p.MsgLens = []int{0, 137}
 		if big {
-			p.FullFlipBases = []int{0, 3} // (s0,m0) (s3,m137)
+			p.FullFlipBases = []int{0} // (s0,m0)
+		}
+	default:
+		// secondary configurations (purego in the quick tier, alloff in the thorough tier): one base case per
+		// subject; strings over 256 bytes get the declared bit sub-alphabet, every other family is complete
+		p.Seeds = []int{3}
+		p.MsgLens = []int{137}
+		if big {
+			p.FullFlipBases = []int{}
 		}
 	}
 	return p
